@@ -9,6 +9,7 @@ import warnings
 import networkx as nx
 
 T, TID, LID, POS, CUS = "t", "track_id", "lineage_id", "pos", "custom"
+ECUS = "edge_custom"
 
 
 def build_real(inp):
@@ -19,7 +20,11 @@ def build_real(inp):
     g = nx.DiGraph()
     for i in range(N):
         if inp["alive"][i]:
-            attrs = {T: inp["t"][i], POS: [float(i), float(2 * i)], TID: inp["tid"][i], CUS: inp["cus"][i]}
+            attrs = {T: inp["t"][i], TID: inp["tid"][i], CUS: inp["cus"][i]}
+            if inp.get("multi_pos"):
+                attrs["y"], attrs["x"] = float(i), float(2 * i)
+            else:
+                attrs[POS] = [float(i), float(2 * i)]
             if inp.get("lineage", True):
                 attrs[LID] = inp["lid"][i]
             g.add_node(i + 1, **attrs)
@@ -29,7 +34,13 @@ def build_real(inp):
         first = [c for c in so.get(i + 1, []) if c in kids]
         for c in first + [c for c in kids if c not in first]:  # adjacency (= iteration) order as in the model
             g.add_edge(i + 1, c)
-    tr = SolutionTracks(g, ndim=3, time_attr=T, tracklet_attr=TID, lineage_attr=LID)
+            if inp.get("ecus") is not None:
+                g.edges[i + 1, c][ECUS] = inp["ecus"][i][c - 1]
+    tr = SolutionTracks(g, ndim=3, time_attr=T, tracklet_attr=TID, lineage_attr=LID,
+                        pos_attr=["y", "x"] if inp.get("multi_pos") else None)
+    if inp.get("ecus") is not None:
+        tr.features[ECUS] = {"feature_type": "edge", "value_type": "int", "num_values": 1, "required": False,
+                             "default_value": None}
     tr.features[CUS] = {"feature_type": "node", "value_type": "int", "num_values": 1, "required": False,
                         "default_value": None}
     ta = tr.track_annotator
@@ -123,14 +134,21 @@ def run_action(tr, inp):
     if kind == "DeleteNode":
         return A.DeleteNode(tr, a["n"])
     if kind in ("UserAddNode", "AddNode"):
-        attrs = {T: a["t"], TID: a["tid"], POS: [0.5, 0.25], CUS: a["cus"]}
+        attrs = {T: a["t"], TID: a["tid"], CUS: a["cus"]}
+        if inp.get("multi_pos"):
+            attrs["y"], attrs["x"] = 0.5, 0.25
+        else:
+            attrs[POS] = [0.5, 0.25]
         sh = a["shape"]
         if sh == "no_time":
             del attrs[T]
         elif sh == "no_track_id":
             del attrs[TID]
         elif sh == "no_pos":
-            del attrs[POS]
+            for kk in (POS, "y", "x"):
+                attrs.pop(kk, None)
+        elif sh == "partial_pos":
+            del attrs["x"]
         elif sh == "with_lineage":
             attrs[LID] = a["lid"]
         if kind == "UserAddNode":
